@@ -290,10 +290,16 @@ func genFrame(isServer bool, first bool, inMsg bool) (f seqFrame, violating bool
 		vAssume(vNot(vOr(vAnd(code >= 1000, code <= 1003), vOr(vAnd(code >= 1007, code <= 1013), vAnd(code >= 3000, code <= 4999)))))
 		f.payload = []byte{byte(code >> 8), byte(code)}
 		return f, true
-	case 14: // non-UTF-8 close reason
+	case 14: // non-UTF-8 close reason, short or long (up to the 125-byte limit)
 		f.opcode = 8
 		f.lenForm = 7
 		f.payload = []byte{0x03, 0xe8, 0xc3, 0x28}
+		if vChoice(2) == 1 {
+			f.payload = append([]byte{0x03, 0xe8, 0xff}, vPattern(120, 0x41)...)
+			for k := 3; k < len(f.payload); k++ {
+				f.payload[k] = 'a' + f.payload[k]%26
+			}
+		}
 		return f, true
 	case 15: // 64-bit length with the top bit set
 		f.opcode = uint8(1 + vChoice(2))
